@@ -125,6 +125,32 @@ def schedule(rng, specs):
     return sched
 
 
+def case_from_abstract(r, ab, meta0, wide=False):
+    """one process set `ab` entered three times (variants A, B, F) + forms + interleaved schedule; `wide`: a syntax per variant"""
+    ra, rb, rf = random.Random(r.getrandbits(64)), random.Random(r.getrandbits(64)), random.Random(r.getrandbits(64))
+    as_ode = 0.25 if r.random() < 0.3 else 0.0
+    specA, metaA = gen.make_spec(ra, ab, gen.ALL_ROUTES, shuffle=False, member_eq_prob=0.3)
+    specB, metaB = gen.make_spec(rb, ab, gen.ALL_ROUTES, shuffle=True, as_ode_prob=as_ode, member_eq_prob=0.3)
+    specF, metaF = gen.make_spec(rf, ab, ("event", "event_eq", "event_bare", "legacy"), shuffle=True,
+                                 as_ode_prob=0.3 if rf.random() < 0.3 else 0.0, member_eq_prob=0.2)
+    specF = one_per_keyword(rf, specF)
+    if wide:
+        # the syntax of the strings is one more "equivalent way of specifying": drawn per variant (None = fully parenthesised)
+        for sp_ in (specA, specB, specF):
+            if r.random() < 0.8:
+                sp_["syntax"] = gen.rand_syntax(r)
+    specs = {"A": specA, "B": specB, "F": specF}
+    pts = [gen.rand_point(r, meta0) for _ in range(2)]
+    return ({"A": specA, "B": specB, "F": specF, "routesA": metaA["routes"], "routesB": metaB["routes"],
+                  "routesF": metaF["routes"] + ["one_per_keyword"],
+                  "formsA": rand_forms(ra, specA, 0.3), "formsB": rand_forms(rb, specB, 0.3), "formsF": rand_forms(rf, specF, 0.7),
+                  "schedule": schedule(r, specs),
+                  "states": ab["states"], "params": ab["params"],
+                  "abstract": {"states": ab["states"], "params": ab["params"], "procs": ab["procs"], "odes": ab["odes"], "derived": ab["derived"]},
+                  "points": [{k: str(v) for k, v in p.items()} for p in pts]})
+
+
+
 def wide_options(r, i):
     w = {"names": r.random() < 0.7, "mags": r.random() < 0.85, "state_mags": 0.3, "derived_states": 0.5 if r.random() < 0.5 else 0.0,
          "consts": r.random() < 0.6}
@@ -139,40 +165,20 @@ def wide_cases(rng, n):
 
 def make_cases(rng, tier, budget, n=None, wide=False):
     cases = []
-    if not wide and budget is not None and budget.get("wide"):
-        n_main = n or budget["cases"]
-        wide_list = wide_cases(random.Random(rng.getrandbits(64)), budget["wide"] * (n_main // budget["cases"]))
-    else:
-        wide_list = []
     for i in range(n or budget["cases"]):
         r = random.Random(rng.getrandbits(64))
         w = wide_options(r, i) if wide else None
         _, meta0 = gen.gen_model(r, min_events=1, wide=w)
         ab = meta0["abstract"]
-        ra, rb, rf = random.Random(r.getrandbits(64)), random.Random(r.getrandbits(64)), random.Random(r.getrandbits(64))
-        as_ode = 0.25 if r.random() < 0.3 else 0.0
-        specA, metaA = gen.make_spec(ra, ab, gen.ALL_ROUTES, shuffle=False, member_eq_prob=0.3)
-        specB, metaB = gen.make_spec(rb, ab, gen.ALL_ROUTES, shuffle=True, as_ode_prob=as_ode, member_eq_prob=0.3)
-        specF, metaF = gen.make_spec(rf, ab, ("event", "event_eq", "event_bare", "legacy"), shuffle=True,
-                                     as_ode_prob=0.3 if rf.random() < 0.3 else 0.0, member_eq_prob=0.2)
-        specF = one_per_keyword(rf, specF)
-        if wide:
-            # the syntax of the strings is one more "equivalent way of specifying": drawn per variant (None = fully parenthesised)
-            for sp_ in (specA, specB, specF):
-                if r.random() < 0.8:
-                    sp_["syntax"] = gen.rand_syntax(r)
-        specs = {"A": specA, "B": specB, "F": specF}
-        pts = [gen.rand_point(r, meta0) for _ in range(2)]
-        cases.append({"A": specA, "B": specB, "F": specF, "routesA": metaA["routes"], "routesB": metaB["routes"],
-                      "routesF": metaF["routes"] + ["one_per_keyword"],
-                      "formsA": rand_forms(ra, specA, 0.3), "formsB": rand_forms(rb, specB, 0.3), "formsF": rand_forms(rf, specF, 0.7),
-                      "schedule": schedule(r, specs),
-                      "states": ab["states"], "params": ab["params"],
-                      "abstract": {"states": ab["states"], "params": ab["params"], "procs": ab["procs"], "odes": ab["odes"], "derived": ab["derived"]},
-                      "points": [{k: str(v) for k, v in p.items()} for p in pts]})
+        cases.append(case_from_abstract(r, ab, meta0, wide))
         if wide:
             cases[-1]["wide"] = w
-    # the wide cases are spread over the run
+    # the wide cases are drawn AFTER the classic ones (whose random stream is what it was) and spread over the run
+    if not wide and budget is not None and budget.get("wide"):
+        n_main = n or budget["cases"]
+        wide_list = wide_cases(random.Random(rng.getrandbits(64)), budget["wide"] * (n_main // budget["cases"]))
+    else:
+        wide_list = []
     step = max(1, len(cases) // max(1, len(wide_list)))
     for k, c in enumerate(wide_list):
         cases.insert(min(len(cases), k * (step + 1)), c)
